@@ -551,7 +551,7 @@ fn run_model(ctx: &mut Ctx, id: &str, which: Which, name: &str, menu: Vec<Instru
     let m = M { which, menu: menu.clone(), concat, ops, max_depth: depth, rec: rec.clone() };
     let nactions = m.menu.len() + m.concat.len() + m.ops.len();
     let threads = std::thread::available_parallelism().map(|n| n.get()).unwrap_or(8).min(16);
-    let cap = std::time::Duration::from_secs(ctx.tier.pick(40, 2400));
+    let cap = std::time::Duration::from_secs(ctx.tier.pick(150, 3600));
     let checker = m.checker().threads(threads).timeout(cap).spawn_dfs().join();
     let unique = checker.unique_state_count() as u64;
     let generated = checker.state_count() as u64;
